@@ -78,12 +78,16 @@ def mon_one_outcome(case):
 def mon_roundtrip(case):
     out = []
     payload, idcaller, posted, cur = {}, {}, {}, None
+    slowposted = {}
     for i, (ws, obs, side) in enumerate(case["steps"]):
         if ws[0] == "invoke":
             payload[ws[1]] = kvtok(ws, "h")
         idref = None
         if ws[0] == "rt" and ws[1] in ("response", "error"):
             idref = cur if ws[2] == "cur" else ws[2]
+        if ws[0] == "rt" and ws[1] == "slowresponse":
+            tgt = cur if ws[2] == "cur" else ws[2]
+            slowposted.setdefault(tgt, []).append("bytes:" + (kvtok(ws, "h") or "?"))
         for e in entries(obs):
             m = re.match(r"rt\.next=200,(id#\d+),body=([^,]*),arn=(\w+),ctx=ctx(\d+)", e)
             if m:
@@ -108,7 +112,7 @@ def mon_roundtrip(case):
             if m:
                 c, body = m.groups()
                 ids = [k for k, v in idcaller.items() if v == c]
-                want = [posted[k] for k in ids if k in posted]
+                want = [posted[k] for k in ids if k in posted] + [b for k in ids for b in slowposted.get(k, [])]
                 if want and body not in want:
                     out.append(f"step {i+1}: caller {c} received {body} but the runtime posted {want[-1]} for its request")
                 if not want and body.startswith("bytes:"):
@@ -121,7 +125,7 @@ def mon_body_set(case):
     out = []
     posted = set()
     for i, (ws, obs, side) in enumerate(case["steps"]):
-        if ws[0] == "rt" and ws[1] == "response":
+        if ws[0] == "rt" and ws[1] in ("response", "slowresponse"):
             posted.add("empty" if ws[3] == "0" else "bytes:" + (kvtok(ws, "h") or "?"))
         for e in entries(obs):
             m = re.match(r"caller(\d+) done err=(\S+) body=(\S+)", e)
@@ -136,8 +140,25 @@ def mon_accept_once(case):
     out = []
     cur, answered, done_ids = None, set(), set()
     idcaller, callerdone = {}, set()
+    slow = {}        # upload number -> id it names
+    nslow = 0
     for i, (ws, obs, side) in enumerate(case["steps"]):
         es = entries(obs)
+        if ws[0] == "rt" and ws[1] == "slowresponse":
+            nslow += 1
+            slow[str(nslow)] = cur if ws[2] == "cur" else ws[2]
+        for e in es:
+            m = re.match(r"rt\.slowresponse#(\d+)=(\d+)", e)
+            if m and m.group(1) in slow:
+                target = slow.pop(m.group(1))
+                if m.group(2) in ("202", "413"):
+                    if target != cur:
+                        out.append(f"step {i+1}: a slowly uploaded submission for {target} was accepted while the invocation in flight is {cur}")
+                    elif target in answered:
+                        out.append(f"step {i+1}: a second submission for {target} was accepted")
+                    elif idcaller.get(target) in callerdone:
+                        out.append(f"step {i+1}: a submission for {target} was accepted after its caller had already received an outcome")
+                    answered.add(target)
         if ws[0] == "rt" and ws[1] in ("response", "error"):
             ref = ws[2]
             target = cur if ref == "cur" else ref
